@@ -1,26 +1,47 @@
 import Prom.Props.C01
 /-
-C11 — Gauge operations are atomic. Same step machine as C01 (`Conc.aStep`), with `set`, `add`,
-`sub`, `inc`, `dec`; `sub d` on a float gauge is `add (-d)`, on an integer gauge one `fetch_sub`.
+C11 — Gauge operations are atomic. Same step machine as C01 (`Conc.aEv` / `Conc.aStep`), with `set`,
+`add`, `sub`, `inc`, `dec`; `sub d` on a float gauge is `add (-d)` through the same compare-exchange
+loop, on an integer gauge one `fetch_sub`.
 -/
 namespace Prom.C11
-open Prom Prom.Conc
+open Prom Prom.Conc Prom.C01
 
-/-- **set_not_torn** — a `set`/`reset` is one store of one 64-bit pattern: after the accepted step the
-    cell holds exactly the written value and the call is complete -/
-theorem set_not_torn (s s' : ASt) (e : Ev) (th : Th APc) (op : String) (hn : opName op = "set")
-    (hth : s.ths[e.tid]? = some th) (hpc : th.pc = some (.start op)) (h : aStep s e = .ok s') :
-    s'.mem = e.a ∧ e.k = "S" := by
-  unfold aStep at h
-  simp only [hth, hpc] at h
+/-- **gauge_linearizable** — every returned value and the final value of a gauge are explained by
+    executing the calls one at a time, in the order of their commit steps (each a step of its own
+    call, hence consistent with real time), against the sequential specification `specApply`
+    (`set`, `add`, `sub`, `inc`, `dec`, `get`) -/
+theorem gauge_linearizable {float : Bool} {prog : List (List String)} {s : ASt}
+    (h : AReach (aInit float false prog) s) : specRun s.float 0 s.lin = some s.mem :=
+  cell_linearizable h
+
+/-- … and each call takes effect exactly once: concurrent add / sub / inc / dec are never lost -/
+theorem gauge_exactly_once {float : Bool} {prog : List (List String)} {s : ASt}
+    (h : AReach (aInit float false prog) s) (t : Nat) (th : Th APc) (hth : s.ths[t]? = some th) (i : Nat) :
+    commits s.lin t i =
+      if i < th.idx then (if skipOp (th.ops.getD i "") then 0 else 1)
+      else if i = th.idx ∧ th.retv.isSome ∧ skipOp (th.ops.getD i "") = false then 1 else 0 :=
+  exactly_once h t th hth i
+
+/-- **set_not_torn** — a `set` is one store of one 64-bit pattern: the accepted event is a single
+    store whose operand is the whole new value, the cell holds exactly that value afterwards, and the
+    call is complete with that one step -/
+theorem set_not_torn {float : Bool} {mem : UInt64} {op : String} {e : Ev} {mem' : UInt64} {nx : APc ⊕ String}
+    (hn : opName op = "set") (h : aEv float mem op .start e = .ok (mem', nx)) :
+    e.k = "S" ∧ mem' = e.a ∧ nx = .inr "" := by
+  unfold aEv at h
+  simp only at h
   split at h
   · cases h
-  · have h1 : (opName op == "get") = false := by rw [hn]; decide
-    simp only [h1, Bool.false_eq_true, if_false, hn, beq_self_eq_true, Bool.true_or, if_true] at h
-    repeat' split at h
-    all_goals first
-      | (simp only [Except.ok.injEq] at h; subst h; simp_all)
-      | cases h
+  · rw [hn] at h
+    have h1 : ("set" == "get") = false := by decide
+    have h2 : ("set" == "set" || "set" == "reset") = true := by decide
+    simp only [h1, h2, Bool.false_eq_true, if_false, if_true] at h
+    rw [guard_ok] at h
+    obtain ⟨hg, h⟩ := h
+    simp only [Bool.and_eq_true, beq_iff_eq] at hg
+    cases h
+    exact ⟨hg.1.1, hg.2.symm, rfl⟩
 
 /-- **sub_undoes_add (integers)** — on the integer flavours the cell is updated by wrapping
     `fetch_add` / `fetch_sub`, and `x + d - d = x` for every 64-bit value: no clamping, no second
@@ -28,16 +49,21 @@ theorem set_not_torn (s s' : ASt) (e : Ev) (th : Th APc) (op : String) (hn : opN
 theorem sub_undoes_add_int (x d : UInt64) : x + d - d = x := by
   rw [UInt64.add_sub_cancel]
 
+/-- on the integer gauge, `add d` followed by `sub d` in the sequential specification restores the value -/
+theorem spec_sub_undoes_add_int (v : UInt64) (a : String)
+    (hadd : opName ("add:" ++ a) = "add") (hsub : opName ("sub:" ++ a) = "sub")
+    (ea : opArg ("sub:" ++ a) = opArg ("add:" ++ a)) :
+    ∃ v1, specApply false v ("add:" ++ a) = some (v1, "") ∧ specApply false v1 ("sub:" ++ a) = some (v, "") := by
+  refine ⟨v + intDelta ("add:" ++ a), ?_, ?_⟩
+  · simp [specApply, hadd, isSubOp]
+  · have : intDelta ("sub:" ++ a) = intDelta ("add:" ++ a) := by simp [intDelta, hadd, hsub, ea]
+    simp [specApply, hsub, isSubOp, this, UInt64.add_sub_cancel]
+
 /-- the float delta of `sub d` is the negation of the delta of `add d` (sign-bit flip), so `sub`
     applies `+ (-d)` through the same compare-exchange loop as `add` -/
 theorem sub_is_add_neg (a : String) (hs : opName ("sub:" ++ a) = "sub") (ha : opName ("add:" ++ a) = "add")
     (ea : opArg ("sub:" ++ a) = opArg ("add:" ++ a)) :
     floatDelta ("sub:" ++ a) = (floatDelta ("add:" ++ a)).map f64NegOp := by
   simp [floatDelta, hs, ha, ea]
-
-/-- every committed write of a gauge is visible as the cell value (shared with C01) -/
-theorem gauge_lin_inv (items : List Item) (s s' : ASt) (n : Nat) (hi : C01.LogInv s)
-    (h : runItems aItem s items n = .ok s') : C01.LogInv s' :=
-  C01.lin_inv items s s' n hi h
 
 end Prom.C11
